@@ -80,17 +80,17 @@ MANIFEST = dict(
          "at all. Covered by the theorems: every key in all four states (Selecting with phrase lists, special-symbol lists and "
          "symbol tables: paging, Down/Space = PhraseSelector::next, j/k = retarget, digits = Selecting::select - a chosen phrase is "
          "a valid selection) and every other entry point. PARTIAL: not yet covered by a theorem (predicate Covered; C01_target is "
-         "the statement without it): jump_to_{first,last,next,prev}_selection_point while a phrase candidate list is open - and "
-         "that corner is a genuine defect, finding F41 found by the proof attempt (f41_jump_first_breaks_invariant, "
-         "C01_target_refuted: with the simple engine jump_to_first_selection_point makes the single-word selector swallow the "
-         "following non-syllable symbol; choosing a candidate records an invalid selection outside C03's CompValid); "
+         "the statement without it): jump_to_{first,last,next,prev}_selection_point while a phrase candidate list is open. The proof "
+         "attempt in exactly that corner uncovered a genuine defect, finding F41, confirmed as an abort on the real C API and repaired "
+         "(f41_history_repaired: with the simple engine chewing_cand_list_first made the single-word list swallow the following "
+         "non-syllable symbol; choosing a candidate recorded an invalid selection and the next ChewingEngine conversion aborted); "
          "the C glue capi/src/io.rs. Those rest on the tie: per-operation correspondence of model and real Editor from its own "
          "pre-state (panic outcomes included, 0 differences), the editor-harness oracle (any panic / hang of an operation or "
          "accessor) and a C-API crash/hang campaign in forked workers with a per-call watchdog (all 256 key codes, options, 17 "
          "keyboard types, 3 engines mid-composition, candidate and user-phrase calls with hostile arguments, every getter after "
          "every call); failures are classified by the state predicate only (known class no-word-for-buffered-syllable, else "
          "new with the call history as replay). Defects repaired by fix: commits: F01 full-width unwrap, F04 candidate offset "
-         "overflow, F06 userphrase_get short buffer, F40 (new, found by the campaign) Editor::select auto-commits under an open list.",
+         "overflow, F06 userphrase_get short buffer, F40 (new, found by the campaign) Editor::select auto-commits under an open list, F41 (new, found by the proof attempt) init_single_word origin.",
     note="Trusted: Lean kernel (axioms propext, Classical.choice, Quot.sound), read-only snapshot hooks, harness + compiled model "
          "driver, the process-level watchdog. EnvOK.convert_ok is C03's nonempty_result + alt_chain + one_char_per_symbol + "
          "fuel_suffices (proved there for the engine model, under ScoreBound = at most 128 symbols and frequencies <= 2^23; the "
